@@ -107,7 +107,11 @@ func AstLevel(t token.Type) int { return astLevel(t) }
 func parensLeft(parent int, child int) bool  { return child < parent }
 func parensRight(parent int, child int) bool { return child <= parent }
 
-//@ globalinv [levels.order@C03] PrecedenceLowest < PrecedenceAssignment && PrecedenceAssignment < PrecedenceLogicalOr && PrecedenceLogicalOr < PrecedenceLogicalAnd && PrecedenceLogicalAnd < PrecedenceEquality && PrecedenceEquality < PrecedenceComparison && PrecedenceComparison < PrecedenceSum && PrecedenceSum < PrecedenceProduct && PrecedenceProduct < PrecedenceUnary && PrecedenceUnary < PrecedencePostfix && PrecedencePostfix < PrecedenceCall && PrecedenceCall < PrecedenceMember && PrecedenceMember < PrecedenceAtomic
+func lemma_levels_order() {}
+
+//@ func lemma_levels_order
+//@   props C03
+//@   ensures [levels.order@C03] PrecedenceLowest < PrecedenceAssignment && PrecedenceAssignment < PrecedenceLogicalOr && PrecedenceLogicalOr < PrecedenceLogicalAnd && PrecedenceLogicalAnd < PrecedenceEquality && PrecedenceEquality < PrecedenceComparison && PrecedenceComparison < PrecedenceSum && PrecedenceSum < PrecedenceProduct && PrecedenceProduct < PrecedenceUnary && PrecedenceUnary < PrecedencePostfix && PrecedencePostfix < PrecedenceCall && PrecedenceCall < PrecedenceMember && PrecedenceMember < PrecedenceAtomic
 
 //@ func operatorPrecedence
 //@   props C03 C02
@@ -131,6 +135,11 @@ func gposByte(S gpos, c byte) gpos {
 }
 func gposStr(S gpos, s string) gpos {
 	return gpos{line: S.line + sourcemap.Brk(s, len(s)), col: sourcemap.ColAfter(S.col, s, len(s))}
+}
+
+// WriterEmpty: nothing written, nothing deferred (exported for the contracts of packages compiler and debug).
+func WriterEmpty(cw *CodeWriter) bool {
+	return len(cw.pendings) == 0 && eq(cw.Builder, strings.Builder{})
 }
 
 // J: the source mapper's cursor is the generated position of everything written so far.
@@ -160,9 +169,11 @@ func cwInv(cw *CodeWriter) bool {
 //@   ensures [no-mapping@C08] cw.Mapper == nil || sourcemap.NumMappings(cw.Mapper) == old(sourcemap.NumMappings(cw.Mapper))
 //@   ensures [compact.noop@C06] implies(!cw.PrettyPrint, len(cw.pendings) == 0 && cw.IndentLevel == old(cw.IndentLevel))
 
+// emit = append to the buffer and advance the mapper over the same text.
 //@ func (cw *CodeWriter) emit
 //@   props C08 C06 C15
 //@   use cwFrame
+//@   ensures [mechanism@C08] fullSeq(evOpt(cw.Mapper != nil, evCall("(*SourceMapper).AdvanceString"))) && implies(cw.Mapper != nil, callArg[string]("(*SourceMapper).AdvanceString", 0, 1) == s)
 //@   ensures [pendings] eq(cw.pendings, old(cw.pendings)) && cw.IndentLevel == old(cw.IndentLevel)
 //@   ensures [no-mapping@C08] cw.Mapper == nil || sourcemap.NumMappings(cw.Mapper) == old(sourcemap.NumMappings(cw.Mapper))
 
@@ -185,24 +196,34 @@ func cwInv(cw *CodeWriter) bool {
 //@   ensures [pendings] eq(cw.pendings, old(cw.pendings)) && cw.IndentLevel == old(cw.IndentLevel)
 //@   ensures [no-mapping@C08] cw.Mapper == nil || sourcemap.NumMappings(cw.Mapper) == old(sourcemap.NumMappings(cw.Mapper))
 
+// flushPending writes each deferred layout character once, in order (a tab stands for the current indentation), then
+// forgets them.
 //@ func (cw *CodeWriter) flushPending
 //@   props C06 C08 C15
 //@   use cwFrame
+//@   loop 1 before [mechanism@C06] fullSeq()
+//@   loop 1 each [mechanism@C06] fullSeq(evOpt(ch == '\t', evCall("(*CodeWriter).writeIndent")), evOpt(ch != '\t', evCall("(*CodeWriter).emit")))
+//@   ensures [mechanism@C06] fullSeq(evCall("(*CodeWriter).clearPending"))
 //@   loop 1 invariant [frame] cwInv(cw) && J(cw) && cw.IndentLevel == old(cw.IndentLevel) && eq(cw.pendings, old(cw.pendings)) && (cw.Mapper == nil || sourcemap.NumMappings(cw.Mapper) == old(sourcemap.NumMappings(cw.Mapper))) && implies(!cw.PrettyPrint, eq(cw.Builder, old(cw.Builder)))
 //@   ensures [flushed] len(cw.pendings) == 0 && cw.IndentLevel == old(cw.IndentLevel)
 //@   ensures [compact.nothing@C06] implies(!cw.PrettyPrint, eq(cw.Builder, old(cw.Builder)))
 //@   ensures [no-mapping@C08] cw.Mapper == nil || sourcemap.NumMappings(cw.Mapper) == old(sourcemap.NumMappings(cw.Mapper))
 
+// WriteString = flush the deferred layout, then the text (both through emit, which advances the mapper).
 //@ func (cw *CodeWriter) WriteString
 //@   props C06 C08 C15 C01
 //@   use cwFrame
+//@   ensures [mechanism@C06,C08] fullSeq(evCall("(*CodeWriter).flushPending"), evCall("(*CodeWriter).emit")) && callArg[string]("(*CodeWriter).emit", 0, 1) == s
 //@   ensures [flushed] len(cw.pendings) == 0 && cw.IndentLevel == old(cw.IndentLevel)
 //@   ensures [no-mapping@C08] cw.Mapper == nil || sourcemap.NumMappings(cw.Mapper) == old(sourcemap.NumMappings(cw.Mapper))
 
 // WriteRune is used for single ASCII characters other than carriage return.
+// WriteRune = flush the deferred layout, then the character; the mapper advances by one column or one line.
 //@ func (cw *CodeWriter) WriteRune
 //@   props C06 C08 C15 C01
 //@   use cwFrame
+//@   ensures [mechanism@C06,C08] fullSeq(evCall("(*CodeWriter).flushPending"), evOpt(cw.Mapper != nil && r == '\n', evCall("(*SourceMapper).AdvanceLine")), evOpt(cw.Mapper != nil && r != '\n', evCall("(*SourceMapper).AdvanceColumn")))
+//@   ensures [column@C08] implies(cw.Mapper != nil && r != '\n', callArg[int]("(*SourceMapper).AdvanceColumn", 0, 1) == 1)
 //@   requires [ascii] 0 <= r && r < 128 && r != '\r'
 //@   ensures [flushed] len(cw.pendings) == 0 && cw.IndentLevel == old(cw.IndentLevel)
 //@   ensures [no-mapping@C08] cw.Mapper == nil || sourcemap.NumMappings(cw.Mapper) == old(sourcemap.NumMappings(cw.Mapper))
@@ -252,20 +273,20 @@ func cwInv(cw *CodeWriter) bool {
 
 // A mapping is recorded at the mapper's current generated position and points at the given source position.
 //@ func (cw *CodeWriter) AddMapping
-//@   props C08
+//@   props C08 C06 C14
 //@   use cwFrame
-//@   ensures [unchanged] eq(cw.Builder, old(cw.Builder)) && eq(cw.pendings, old(cw.pendings)) && cw.IndentLevel == old(cw.IndentLevel)
-//@   ensures [recorded@C08] cw.Mapper == nil || (sourcemap.NumMappings(cw.Mapper) == old(sourcemap.NumMappings(cw.Mapper))+1 && sourcemap.MappingAt(cw.Mapper, old(sourcemap.NumMappings(cw.Mapper))).GeneratedLine == old(sourcemap.GenLine(cw.Mapper)) && sourcemap.MappingAt(cw.Mapper, old(sourcemap.NumMappings(cw.Mapper))).GeneratedColumn == old(sourcemap.GenCol(cw.Mapper)) && sourcemap.MappingAt(cw.Mapper, old(sourcemap.NumMappings(cw.Mapper))).SourceLine == pos.Line && sourcemap.MappingAt(cw.Mapper, old(sourcemap.NumMappings(cw.Mapper))).SourceColumn == pos.Column && !sourcemap.MappingAt(cw.Mapper, old(sourcemap.NumMappings(cw.Mapper))).HasName)
-//@   ensures [at-token.compact@C08] implies(!cw.PrettyPrint, len(cw.pendings) == 0)
-//@   ensures [at-token.pretty@C08] implies(cw.PrettyPrint && cw.Mapper != nil, len(cw.pendings) == 0)
+//@   ensures [flush-first@C08,C14] ncalls("(*CodeWriter).flushPending") == 1 && callOrder("(*CodeWriter).flushPending", 0, "(*SourceMapper).AddMapping", 0)
+//@   ensures [indent] cw.IndentLevel == old(cw.IndentLevel)
+//@   ensures [recorded@C08] cw.Mapper == nil || (sourcemap.NumMappings(cw.Mapper) == old(sourcemap.NumMappings(cw.Mapper))+1 && sourcemap.MappingAt(cw.Mapper, old(sourcemap.NumMappings(cw.Mapper))).GeneratedLine == sourcemap.GenLine(cw.Mapper) && sourcemap.MappingAt(cw.Mapper, old(sourcemap.NumMappings(cw.Mapper))).GeneratedColumn == sourcemap.GenCol(cw.Mapper) && sourcemap.MappingAt(cw.Mapper, old(sourcemap.NumMappings(cw.Mapper))).SourceLine == pos.Line && sourcemap.MappingAt(cw.Mapper, old(sourcemap.NumMappings(cw.Mapper))).SourceColumn == pos.Column && !sourcemap.MappingAt(cw.Mapper, old(sourcemap.NumMappings(cw.Mapper))).HasName)
+//@   ensures [at-token@C08] len(cw.pendings) == 0
 
 //@ func (cw *CodeWriter) AddNamedMapping
-//@   props C08
+//@   props C08 C06 C14
 //@   use cwFrame
-//@   ensures [unchanged] eq(cw.Builder, old(cw.Builder)) && eq(cw.pendings, old(cw.pendings)) && cw.IndentLevel == old(cw.IndentLevel)
-//@   ensures [recorded@C08] cw.Mapper == nil || (sourcemap.NumMappings(cw.Mapper) == old(sourcemap.NumMappings(cw.Mapper))+1 && sourcemap.MappingAt(cw.Mapper, old(sourcemap.NumMappings(cw.Mapper))).GeneratedLine == old(sourcemap.GenLine(cw.Mapper)) && sourcemap.MappingAt(cw.Mapper, old(sourcemap.NumMappings(cw.Mapper))).GeneratedColumn == old(sourcemap.GenCol(cw.Mapper)) && sourcemap.MappingAt(cw.Mapper, old(sourcemap.NumMappings(cw.Mapper))).SourceLine == sourceLine && sourcemap.MappingAt(cw.Mapper, old(sourcemap.NumMappings(cw.Mapper))).SourceColumn == sourceColumn && sourcemap.MappingAt(cw.Mapper, old(sourcemap.NumMappings(cw.Mapper))).HasName && sourcemap.NameAt(cw.Mapper, sourcemap.MappingAt(cw.Mapper, old(sourcemap.NumMappings(cw.Mapper))).NameIndex) == name)
-//@   ensures [at-token.compact@C08] implies(!cw.PrettyPrint, len(cw.pendings) == 0)
-//@   ensures [at-token.pretty@C08] implies(cw.PrettyPrint && cw.Mapper != nil, len(cw.pendings) == 0)
+//@   ensures [flush-first@C08,C14] ncalls("(*CodeWriter).flushPending") == 1 && callOrder("(*CodeWriter).flushPending", 0, "(*SourceMapper).AddNamedMapping", 0)
+//@   ensures [indent] cw.IndentLevel == old(cw.IndentLevel)
+//@   ensures [recorded@C08] cw.Mapper == nil || (sourcemap.NumMappings(cw.Mapper) == old(sourcemap.NumMappings(cw.Mapper))+1 && sourcemap.MappingAt(cw.Mapper, old(sourcemap.NumMappings(cw.Mapper))).GeneratedLine == sourcemap.GenLine(cw.Mapper) && sourcemap.MappingAt(cw.Mapper, old(sourcemap.NumMappings(cw.Mapper))).GeneratedColumn == sourcemap.GenCol(cw.Mapper) && sourcemap.MappingAt(cw.Mapper, old(sourcemap.NumMappings(cw.Mapper))).SourceLine == sourceLine && sourcemap.MappingAt(cw.Mapper, old(sourcemap.NumMappings(cw.Mapper))).SourceColumn == sourceColumn && sourcemap.MappingAt(cw.Mapper, old(sourcemap.NumMappings(cw.Mapper))).HasName && sourcemap.NameAt(cw.Mapper, sourcemap.MappingAt(cw.Mapper, old(sourcemap.NumMappings(cw.Mapper))).NameIndex) == name)
+//@   ensures [at-token@C08] len(cw.pendings) == 0
 
 // Comments: compact output contains none; in pretty mode every write is comment text, "//", a space, a line break or
 // indentation, and the next token starts on a fresh line.
